@@ -73,6 +73,17 @@ def run(chk):
     chk.call(r2_iter, chk, ens)
     chk.call(r3_view, chk, conf, ens)
     chk.call(r4_live, chk, ens)
+    # R5: "construct from ... ensemble" must give arrays of its own (an ensemble that shares its arrays with its source is
+    # changed by edits of the other one: "nothing else changes") - the clause C06.R6 decides.
+    # R6: "can be ... serialised": the ensemble codec of molli/chem/io.py (anchored here too) stores and restores the three
+    # arrays with their shapes, also for 0 atoms / 0 conformers - the clauses C01.R1-R4 (current ensemble codec) and C01.R7 decide.
+    from . import c01, c06
+
+    chk.borrow("C14.R5", c06.r6_ensemble_copy, chk)
+    wf, rf = prog.func(f"{c01.IO}:_serialize_ens_v2"), prog.func(f"{c01.IO}:_deserialize_ens_v2")
+    chk.analysed(wf, rf)
+    chk.borrow("C14.R6", c01.codec_pair, chk, "ens", 2, wf, rf)
+    chk.borrow("C14.R6", c01.r7_empty_shapes, chk)
 
 
 def r1_together(chk, ens):
